@@ -92,6 +92,7 @@ package libaudit
 //@ ensures[C01] forall i int :: 0 <= i && i < len(result0) ==> result0[i] == old(l.events[l.seqs[i]])
 //@ ensures[C01] forall k int :: lo(result0) <= k && k < hi(result0) ==> at(result0, k) != nil
 //@ ensures[C01] forall s sequenceNum :: s in l.events ==> old(s in l.events) && l.events[s] == old(l.events[s])
+//@ ensures[C01] len(result0) == 0 ==> forall s sequenceNum :: old(s in l.events) ==> s in l.events
 //@ ensures[C10] len(l.seqs) > 0 ==> !l.events[l.seqs[0]].complete && len(l.seqs) <= l.maxSize
 //@ ensures[C19] len(l.seqs) > 0 ==> !(clock() > l.events[l.seqs[0]].expireTime)
 //@ ensures[C10] forall i int :: 0 <= i && i < len(result0) ==> result0[i].complete || old(len(l.seqs)) - i > l.maxSize || result0[i].expireTime < clock()
@@ -106,6 +107,7 @@ package libaudit
 //@ loop 0 invariant forall k int :: lo(evicted) <= k && k < hi(evicted) ==> at(evicted, k) == old(l.events[at(l.seqs, lo(l.seqs) + (k - lo(evicted)))])
 //@ loop 0 invariant forall s sequenceNum :: s in l.events ==> old(s in l.events) && l.events[s] == old(l.events[s])
 //@ loop 0 invariant forall k int :: lo(evicted) <= k && k < hi(evicted) ==> at(evicted, k) != nil
+//@ loop 0 invariant len(evicted) == 0 ==> forall s sequenceNum :: old(s in l.events) ==> s in l.events
 //@ loop 0 invariant[C10] forall k int :: lo(evicted) <= k && k < hi(evicted) ==> at(evicted, k).complete || old(len(l.seqs)) - (k - lo(evicted)) > l.maxSize || at(evicted, k).expireTime < clock()
 //@ loop 0 invariant[C03] lost == fLost(lo(l.seqs), old(l.seqs), old(lo(l.seqs)), old(l.lastSeq), old(l.hasLast)) && lost >= 0 && lost <= len(evicted) * 16777215
 //@ loop 0 invariant[C03] l.lastSeq == fHW(lo(l.seqs), old(l.seqs), old(lo(l.seqs)), old(l.lastSeq), old(l.hasLast))
@@ -236,6 +238,7 @@ package libaudit
 //@ modifies r.list.seqs, r.list.lastSeq, r.list.hasLast, r.list.Mutex, mapOf(r.list.events), elemsOf(sequenceNum), elemsOf(*event), event.msgs, event.complete, event.expireTime, elemsOf(*auparse.AuditMessage), alloc, clock, envlog
 //@ ensures[C01] Base(r.list) && MsgsOK(r.list)
 //@ ensures[C01] msg == nil ==> envlen() == old(envlen()) && len(r.list.seqs) == old(len(r.list.seqs))
+//@ ensures[C01] msg != nil && msg.RecordType != auparse.AUDIT_EOE && envlen() == old(envlen()) ==> msg.Sequence in r.list.events && at(r.list.events[msg.Sequence].msgs, hi(r.list.events[msg.Sequence].msgs) - 1) == msg
 //@ ensures[C10] msg != nil ==> len(r.list.seqs) <= r.list.maxSize || len(r.list.seqs) == 0
 //@ ensures[C10] msg != nil && len(r.list.seqs) > 0 ==> !r.list.events[r.list.seqs[0]].complete
 //@ ensures[C19] msg != nil && len(r.list.seqs) > 0 ==> !(clock() > r.list.events[r.list.seqs[0]].expireTime)
@@ -274,4 +277,6 @@ package libaudit
 //@ modifies r.list.seqs, r.list.lastSeq, r.list.hasLast, r.list.Mutex, mapOf(r.list.events), elemsOf(sequenceNum), elemsOf(*event), event.msgs, event.complete, event.expireTime, elemsOf(*auparse.AuditMessage), alloc, clock, envlog
 //@ ensures[C01] Base(r.list) && MsgsOK(r.list)
 //@ ensures[C01] result0 != nil ==> envlen() == old(envlen()) && len(r.list.seqs) == old(len(r.list.seqs))
+//@ witness[C01] (result0 == nil) == (msg != nil)
+//@ witness[C01] result0 == nil && typ != auparse.AUDIT_EOE && envlen() == old(envlen()) ==> msg.Sequence in r.list.events && at(r.list.events[msg.Sequence].msgs, hi(r.list.events[msg.Sequence].msgs) - 1) == msg
 //@ ensures[C11] !held(r.list.Mutex)
